@@ -223,15 +223,24 @@ def check(tier, seed, replay=None):
         if "config_order" in r:
             idx = [allcfg.index(c) for c in r["config_order"] if c in allcfg]
     configs = [allcfg[i] for i in idx]
-    res = C.run_forked(run_matrix, [configs], timeout=3000)[0]
-    if isinstance(res, dict) and "crash" in res:
-        raise C.HarnessError("matrix child crashed: " + str(res)[:600])
+    # one process per chunk (thorough: 8 chunks side by side; every chunk is a random sequence of configurations inside one process)
+    K = 1 if (tier == "quick" or replay) else 8
+    chunks = [list(range(len(configs)))[k::K] for k in range(K)]
+    outs = C.run_forked(run_matrix, [[configs[i] for i in ch] for ch in chunks], timeout=3000, workers=K)
+    res = [None] * len(configs)
+    for ch, out in zip(chunks, outs):
+        if isinstance(out, dict) and "crash" in out:
+            raise C.HarnessError("matrix child crashed: " + str(out)[:600])
+        for i, r in zip(ch, out):
+            res[i] = r
     xbad = []
     for k, (i, r) in enumerate(zip(idx, res)):
         cfg = allcfg[i]
         rep.count("X-" + cfg["backend"], json.dumps(cfg, sort_keys=True), nontrivial=must[i])
         if must[i] and not r["raised"]:
-            xbad.append({"config": cfg, "position_in_process": k, "observed": r, "expected": "an exception before a result is returned", "config_order": configs[:k + 1]})
+            ch = chunks[k % K]
+            xbad.append({"config": cfg, "position_in_process": ch.index(k), "observed": r, "expected": "an exception before a result is returned",
+                         "config_order": [configs[i] for i in ch[:ch.index(k) + 1]]})
         elif (not must[i]) and r["raised"]:
             rep.cov["streams"]["supported_configs_that_raised"] = rep.cov["streams"].get("supported_configs_that_raised", 0) + 1
             rep.validated()          # raising is always "loud": not this property's violation
